@@ -66,8 +66,31 @@ pub fn run(case: &Value) -> Value {
             let mut b = Short::new(&case["max_b"]);
             {
                 let mut w = tee(&mut a, &mut b);
-                for c in case["chunks"].as_array().unwrap() {
-                    w.write_all(&bytes_of(c)).unwrap();
+                if case["vectored"] == true {
+                    // all chunks offered at once as IoSlices, advancing by what the tee reports as written
+                    let chunks: Vec<Vec<u8>> = case["chunks"].as_array().unwrap().iter().map(bytes_of).collect();
+                    let total: usize = chunks.iter().map(Vec::len).sum();
+                    let flat: Vec<u8> = chunks.concat();
+                    let mut done = 0;
+                    while done < total {
+                        // re-slice the remaining input at the original chunk boundaries
+                        let mut slices = vec![];
+                        let mut pos = 0;
+                        for c in &chunks {
+                            let (s, e) = (pos.max(done), pos + c.len());
+                            if e > s {
+                                slices.push(std::io::IoSlice::new(&flat[s..e]));
+                            }
+                            pos += c.len();
+                        }
+                        let n = w.write_vectored(&slices).unwrap();
+                        assert!(n > 0, "write_vectored wrote nothing");
+                        done += n;
+                    }
+                } else {
+                    for c in case["chunks"].as_array().unwrap() {
+                        w.write_all(&bytes_of(c)).unwrap();
+                    }
                 }
                 w.flush().unwrap();
             }
